@@ -18,7 +18,7 @@ MC_FORMULAS = {
 }
 # trace clauses per property
 CLAUSES = {
-    "C01": ["stat:*", "valid"],
+    "C01": ["stat:*", "valid", "predictable:*"],   # validity needs the bet to be predictable
     "C05": ["predictable:*", "prefix:*"],
     "C11": ["exc:*", "len", "unit:*", "unitp:*", "overall:*"],
     "C12": ["stat:*", "exc:*", "conv:*", "equiv:*", "len"],
